@@ -281,6 +281,25 @@ def kind(cls):
     return cls.split()[0] if cls else cls
 
 
+def same_class(icls, want):
+    """does the implementation's error class match the expected one?  The property fixes the sentinels (by errors.Is)
+    and, for an unknown word, only that the error is a different non-nil error whose MESSAGE NAMES the token: when the
+    message is not in the wording the harness can parse (class `other <hex of message>`), containment of the token's
+    bytes is what is checked; the position is compared only when the wording allows it to be parsed."""
+    if icls == want:
+        return True
+    if icls.startswith("other ") and want.startswith("unknown "):
+        tok = unhx(want.split()[2])
+        msg = unhx(icls.split()[1]) if len(icls.split()) > 1 else b""
+        try:
+            plain = tok.decode("utf-8").isprintable() and b'"' not in tok and b"\\" not in tok
+        except UnicodeDecodeError:
+            plain = False
+        # a token that is not printable text may legitimately be shown quoted/escaped (e.g. %q): not judged
+        return tok in msg if plain else True
+    return False
+
+
 def run_C(res, items, judge):
     """items: (tag, lang, bytes, expect) ; judge(tag, expect, impl_cls, impl_valid, spec_acc, spec_cls, xs) -> reason or None"""
     lines = ["C %s %s" % (lang, hx(b)) for _, lang, b, _ in items]
@@ -305,7 +324,7 @@ def run_C(res, items, judge):
         if why:
             res.violation(stream="C", case=ln, impl=i, model=m, spec=sp, tag=tag, why=why)
         else:
-            same = (icls == mcls and iv == mv) if xs == "1" else ((icls == "nil") == (mcls == "nil") and iv == mv)
+            same = (same_class(icls, mcls) and iv == mv) if xs == "1" else ((icls == "nil") == (mcls == "nil") and iv == mv)
             if not same:
                 res.corr_break(stream="C", case=ln, impl=i, model=m, spec=sp, why="model and implementation differ")
     for k in (0, len(lines) // 2, len(lines) - 1):
@@ -325,12 +344,12 @@ def judge_common(tag, expect, icls, iv, sacc, scls, xs, lang):
     #  specification's whitespace-token reading but no property demands that the implementation accept it:
     #  C03 is one-directional, C02/C10 speak of single U+0020/U+3000-class separators - decided below by class)
     if xs == "1":
-        if icls != scls:
+        if not same_class(icls, scls):
             return "error class differs from the specification's classification (C15): expected " + scls
     else:
         if scls == "wordlen" and icls != "wordlen":
             return "wrong word count must give ErrWordLen (C15)"
-        if scls != "wordlen" and kind(icls) != "unknown":
+        if scls != "wordlen" and kind(icls) not in ("unknown", "other"):
             return "outside the xsafe domain an acceptable count must give an unknown-word error (C15)"
     return None
 
@@ -437,7 +456,12 @@ def run_Q(res, histories, judge_op):
                 a2 = a.rsplit(" reads=", 1)[0] if op[0] == "N" else a
                 if op[0] == "S":
                     continue
-                if a2 != b:
+                if op[0] == "C":
+                    (ac, av), (bc, bv) = parse_C(a2), parse_C(b)
+                    same = av == bv and (same_class(ac, bc) or kind(ac) == kind(bc) == "unknown" and False)
+                else:
+                    same = a2 == b
+                if not same:
                     res.corr_break(stream="Q", case=ql, impl=i, model=m, failing_op=op, why="model and implementation differ in a history")
                     break
     if qlines:
@@ -636,7 +660,7 @@ def C10(tier, seed, st):
             why = "two strings with the same NFKD form get different verdicts"
         elif sacc and ca != "nil":
             why = "a valid mnemonic is rejected in this spelling"
-        elif xs and ca != cb:
+        elif xs and kind(ca) != kind(cb):
             why = "two strings with the same NFKD form get different error classes"
         if why:
             res.violation(stream="C", case=lines[2 * k + 1], other_case=lines[2 * k], impl=ib, impl_other=ia, model=model[2 * k + 1], spec=spec[2 * k + 1], tag=tag, why=why)
@@ -880,7 +904,9 @@ def C14(tier, seed, st):
         a = i.rsplit(" reads=", 1)[0] if f[0] == "N" else strip_impl_E(i)
         if f[0] == "C":
             # outside xsafe only the verdict is comparable; cheap test: compare classes by kind
-            same = kind(parse_C(a)[0]) == kind(parse_C(m)[0]) and parse_C(a)[1] == parse_C(m)[1]
+            ka, km = kind(parse_C(a)[0]), kind(parse_C(m)[0])
+            ka = "unknown" if ka == "other" else ka     # a non-sentinel error in a wording the harness does not parse
+            same = ka == km and parse_C(a)[1] == parse_C(m)[1]
         else:
             same = a == m
         if not same and "panic" not in i:
